@@ -207,3 +207,52 @@ def _subexprs(e):
   from ..gen.spec import walk_exprs
   out = [x for x in walk_exprs(e) if x[0] not in ("int", "lv") and not (x[0] == "rd" and len(x) > 3)]
   return out[1:]
+
+
+def shape_probes(spec):
+  """'this rare shape was generated' probes (0/1 per design), summed into the evidence"""
+  from ..gen.spec import walk_exprs, walk_stmts
+  P = {"shape.helper_functions": 0, "shape.helper_shared_by_blocks": 0, "shape.runtime_base_part_select": 0,
+       "shape.nonfinal_variable_index": 0, "shape.component_list_2d": 0, "shape.chained_temporaries": 0,
+       "shape.delay_line_register_list": 0, "shape.whole_then_piece_write": 0, "shape.prefix_field_names": 0}
+  for sn, fields in spec.get("structs", {}).items():
+    names = [f[0] for f in fields]
+    if any(a != b and b.startswith(a) for a in names for b in names):
+      P["shape.prefix_field_names"] = 1
+  for cd in spec["comps"].values():
+    if cd.get("funcs"):
+      P["shape.helper_functions"] = 1
+    if any(len(sb["dims"]) > 1 for sb in cd["subs"]):
+      P["shape.component_list_2d"] = 1
+    callers = {}
+    for it in cd["items"]:
+      if it["k"] == "ff" and it["name"].startswith("ffd"):
+        P["shape.delay_line_register_list"] = 1
+      if it["k"] not in ("comb", "ff"):
+        continue
+      whole = set()
+      for st in walk_stmts(it["stmts"]):
+        exprs = []
+        if st[0] == "assign":
+          exprs.append(st[2])
+          key = repr(st[1])
+          if any(key.startswith(w[:-1]) and key != w for w in whole):
+            P["shape.whole_then_piece_write"] = 1
+          whole.add(key)
+        elif st[0] == "tmp":
+          exprs.append(st[2])
+          if len(st) > 3:
+            P["shape.chained_temporaries"] = 1
+        elif st[0] == "if":
+          exprs.append(st[1])
+        for e in exprs:
+          for x in walk_exprs(e):
+            if x[0] == "vslice":
+              P["shape.runtime_base_part_select"] = 1
+            elif x[0] == "fcall":
+              callers.setdefault(x[1], set()).add(it["name"])
+            elif x[0] == "rd" and any(s_[0] == "vi" for s_ in x[1][:-1]):
+              P["shape.nonfinal_variable_index"] = 1
+    if any(len(v) >= 2 for v in callers.values()):
+      P["shape.helper_shared_by_blocks"] = 1
+  return P
